@@ -42,6 +42,21 @@ Theorem C05_bitset_string_ctor_guard_exact : forall str pos n zero one,
 Proof. exact bitset_str_guard_exact. Qed.
 Print Assumptions C05_bitset_string_ctor_guard_exact.
 
+(* erase(first, last) and the iterator-based replace(first, last, ...) overloads of inplace_string: first = begin() + a,
+   last = first + d for ANY ptrdiff_t a and d (before begin(), behind end(), last before first): the two checks on the
+   differences converted to size_type are exactly "[first, last) is a range of the string", and `start <= size()` is the
+   one that fires when first itself is outside *)
+Theorem C05_string_iterator_range_guard_exact : forall size a d, 0 <= size < 2 ^ 62 ->
+  - 2 ^ 63 <= a < 2 ^ 63 -> - 2 ^ 63 <= d < 2 ^ 63 ->
+  str_iter_range_guard size a d = pre_iter_range size a d /\
+  (str_iter_range_site size a d = 0%nat <-> str_iter_range_guard size a d = true) /\
+  (str_iter_range_site size a d = 1%nat <-> ~ (0 <= a <= size)).
+Proof.
+  intros size a d Hs Ha Hd. split; [exact (str_iter_range_guard_exact size a d Hs Ha Hd)|].
+  exact (str_iter_range_site_spec size a d Hs Ha).
+Qed.
+Print Assumptions C05_string_iterator_range_guard_exact.
+
 (* to_string<Capacity>(val): every capacity, every value of a 64-bit (or narrower) signed or unsigned type; the
    64 iterations of fuel always suffice ([Some]) *)
 Theorem C05_to_string_guard_exact : forall cap v, 0 <= cap < two64 - 1 -> - 2 ^ 63 <= v < 2 ^ 64 ->
@@ -56,6 +71,13 @@ Theorem C05_format_escaped_guard_exact : forall text,
   exists b, format_escaped_guard text = Some b /\ (b = true <-> fmt_ok text).
 Proof. exact format_escaped_guard_exact. Qed.
 Print Assumptions C05_format_escaped_guard_exact.
+
+(* the executable form of the specification used as the spec leg of the `fmt` probes — a six-state automaton reading the text
+   once — accepts exactly the well-formed texts, and the scan of the header computes it *)
+Theorem C05_format_spec_automaton_exact : forall text,
+  (fmt_dfa text = true <-> fmt_ok text) /\ format_escaped_guard text = Some (fmt_dfa text).
+Proof. intros text. split; [exact (fmt_dfa_exact text)|exact (format_escaped_guard_is_dfa text)]. Qed.
+Print Assumptions C05_format_spec_automaton_exact.
 
 (* array<T, N>::front() / back() for every N (only N = 0 can violate); operator[] of array<T, 0> in SAFE mode *)
 Theorem C05_array_front_back_guard_exact : forall n, 0 <= n ->
@@ -97,5 +119,7 @@ Example C05_more_nonvacuous :
   bitset_str_guard [48; 49; 50] 0 2 48 49 = true /\ bitset_str_guard [48; 49; 50] 0 18446744073709551615 48 49 = false /\
   bitset_str_guard [48; 49; 50] 4 0 48 49 = false /\
   to_string_guard 3 (-99) = Some true /\ to_string_guard 3 (-100) = Some false /\ to_string_guard 0 0 = Some false /\
-  pre_to_string 3 999 = true /\ pre_to_string 3 1000 = false.
+  pre_to_string 3 999 = true /\ pre_to_string 3 1000 = false /\
+  str_iter_range_guard 3 1 2 = true /\ str_iter_range_guard 3 1 3 = false /\ str_iter_range_guard 3 2 (-1) = false /\
+  str_iter_range_guard 3 (-1) 1 = false /\ str_iter_range_site 3 4 0 = 1%nat /\ str_iter_range_site 3 2 2 = 2%nat.
 Proof. vm_compute. repeat split; reflexivity. Qed.
